@@ -310,3 +310,87 @@ func directiveArgAssertChecked(c *Ctx) {
 		c.R.Fail("directive-arg-assert-checked: %d assertions found", n)
 	}
 }
+
+// errorsNotDropped: in the runtime packages the error result of a call is looked at (tested, returned, stored, passed on) —
+// not ignored.  Writes to the response (io.Writer / http / websocket writes, Close, deadlines, file removal) are exempt: their
+// errors mean the client is gone and nothing can be done; three further sites are reviewed one by one.  A newly ignored error
+// (a dropped `err =`, `_ = enc.Encode(v)`) turns a failure into silently wrong output.
+var errorsDroppedReviewed = map[string]string{
+	"(graphql.Omittable[T]).MarshalGQL→MarshalGQLContext":        "the value's own ContextMarshaler reports its error through the context it is given (graphql.AddError in the generated adapter); Omittable has no error result to hand it on",
+	"(graphql.Omittable[T]).MarshalGQLContext→MarshalGQLContext": "as above",
+	"graphql/handler.sendError→Marshal":                           "marshals a graphql.Response built from strings only; cannot fail",
+	"(*graphql/handler.Server).ServeHTTP→Marshal":                 "marshals a graphql.Response built from the presented error; its failure leaves an empty body on an already failing request",
+}
+
+func errorsNotDropped(c *Ctx) {
+	c.R.Rule("errors-not-dropped", "runtime packages (graphql, executor, handler, extension, transport, lru, complexity): every call whose last result is an error has that result used, except writes/closes/deadlines on the response or connection and the reviewed sites", 100)
+	exemptMethod := map[string]bool{"Write": true, "WriteString": true, "WriteByte": true, "WriteRune": true, "Close": true, "Flush": true, "SetReadDeadline": true, "SetWriteDeadline": true,
+		"WriteMessage": true, "WriteControl": true, "WriteJSON": true, "Remove": true, "Copy": true, "Fprintf": true, "Fprint": true, "Fprintln": true, "Stop": true, "Send": true}
+	in := func(p string) bool {
+		switch {
+		case p == pkgGraphql, p == pkgExecutor, p == pkgHandler, p == pkgExtension, p == pkgTransport, p == pkgComplex, p == modPath("graphql/handler/lru"), p == modPath("graphql/errcode"):
+			return true
+		}
+		return false
+	}
+	n := 0
+	seenSite := map[string]bool{}
+	for _, fn := range c.moduleFuncs(in) {
+		for _, b := range fn.Blocks {
+			for _, i := range b.Instrs {
+				call, ok := i.(*ssa.Call)
+				if !ok {
+					continue
+				}
+				res := call.Call.Signature().Results()
+				if res.Len() == 0 || !an.IsErrorType(res.At(res.Len()-1).Type()) {
+					continue
+				}
+				if _, isB := call.Call.Value.(*ssa.Builtin); isB {
+					continue
+				}
+				name := ""
+				if call.Call.IsInvoke() {
+					name = call.Call.Method.Name()
+				} else {
+					name = lastSeg(an.CalleeOf(call).FullName())
+				}
+				if exemptMethod[name] {
+					continue
+				}
+				n++
+				used := false
+				if res.Len() == 1 {
+					used = len(an.Referrers(call)) > 0
+				} else {
+					for _, r := range an.Referrers(call) {
+						if ex, ok := r.(*ssa.Extract); ok && ex.Index == res.Len()-1 && len(an.Referrers(ex)) > 0 {
+							used = true
+						}
+					}
+				}
+				if used {
+					continue
+				}
+				top := topFn(fn)
+				if o := top.Origin(); o != nil {
+					top = o // all instantiations of a generic method are one site
+				}
+				key := shortFn(top) + "→" + name
+				if seenSite[key+"@"+c.ipos(i)] {
+					continue
+				}
+				seenSite[key+"@"+c.ipos(i)] = true
+				if why, ok := errorsDroppedReviewed[key]; ok {
+					c.R.OK(key, c.ipos(i), "reviewed: "+why)
+					continue
+				}
+				c.R.Bad(key, c.ipos(i), "the error returned by "+name+" is ignored here: when it fails the code carries on as if it had succeeded (a value is missing from the output, a failed step is not reported)")
+			}
+		}
+	}
+	c.R.SetFloor(1)
+	if n < 100 {
+		c.R.Fail("errors-not-dropped: only %d error-returning calls examined", n)
+	}
+}
